@@ -79,12 +79,17 @@ def drive_unary(run, rng, tier):
                         fm.eigvalsh(S, shear=True)
                     C = fm.dot(fm.transpose(A), A)
                     if d > 1:
-                        for k in (0, 2, -1, 0.5):
+                        for k in (0, 2, -1, 0.5, 1, -2, -0.5, 3, float(np.round(rng.uniform(-3, 3), 2))):
                             fm.strain(None, C=C, k=k)
+                            fm.strain(None, C=C, k=k, tensor=False)
+                            if d == 3:
+                                fm.strain(None, C=C, k=k, asvoigt=True)
                         fm.strain(None, C=C, tensor=False)
                         fm.strain(None, C=C, asvoigt=True)
                     fm.strain_stretch_1d(np.sqrt(np.abs(A[0, 0]) + 0.5), k=0)
                     fm.strain_stretch_1d(np.sqrt(np.abs(A[0, 0]) + 0.5), k=2)
+                    for k in (1, -2, -0.5, 3, float(np.round(rng.uniform(-3, 3), 2))):
+                        fm.strain_stretch_1d(np.sqrt(np.abs(A[0, 0]) + 0.5), k=k)
     fm.identity(dim=3, shape=(4, 5))
     fm.identity(dim=2, shape=(1, 1))
 
@@ -113,12 +118,29 @@ def drive_binary(run, rng, tier):
                             fm.dot(B if la == lb else A, A if la == lb else B, mode=(la, lb), out=buf)
                     for (la, lb) in MM.DDOT:
                         fm.ddot(mk(la, ba), mk(lb, bb), mode=(la, lb), parallel=par)
+                        # output buffers (also together with the threaded evaluation), reused with other content
+                        nres = la + lb - 4
+                        buf = np.full((d,) * nres + bs, 5.0)
+                        fm.ddot(mk(la, ba), mk(lb, bb), mode=(la, lb), parallel=par, out=buf)
+                        fm.ddot(mk(la, ba), mk(lb, bb), mode=(la, lb), parallel=par, out=buf)
                     fm.dddot(mk(3, ba), mk(3, bb), parallel=par)
+                    fm.dddot(mk(3, ba), mk(3, bb), parallel=par, out=np.full(bs, 5.0))
+                    if par:
+                        for (la, lb) in MM.DOT:
+                            nres = {(2, 2): 2, (1, 1): 0, (4, 4): 6, (2, 1): 1, (1, 2): 1, (2, 3): 3, (3, 2): 3, (4, 1): 3,
+                                    (1, 4): 3, (2, 4): 4, (4, 2): 4}[(la, lb)]
+                            fm.dot(mk(la, ba), mk(lb, bb), mode=(la, lb), parallel=True, out=np.full((d,) * nres + bs, 5.0))
                     A, B = mk(2, ba), mk(2, bb)
                     fm.cdya_ik(A, B, parallel=par)
                     fm.cdya_il(A, B, parallel=par)
                     fm.cdya(A, B, parallel=par)
                     fm.cdya(A, B, parallel=par, out=np.full((d,) * 4 + bs, 3.0))
+                    b4 = np.full((d,) * 4 + bs, 3.0)
+                    fm.cdya_ik(A, B, parallel=par, out=b4)
+                    fm.cdya_il(B, A, parallel=par, out=b4)
+                    fm.dya(A, B, parallel=par, out=b4)
+                    fm.dya(B, A, parallel=par)
+                    fm.dya(mk(1, ba), mk(1, bb), mode=1, parallel=par, out=np.full((d, d) + bs, 3.0))
                 A, B = mk(2, ba), mk(2, bb)
                 fm.dya(A, B)
                 fm.dya(mk(1, ba), mk(1, bb), mode=1)
@@ -140,6 +162,16 @@ def drive_binary(run, rng, tier):
                     fm.solve_2d(A4, mk(2, bb))
                     A2 = np.eye(d).reshape(d, d, 1, 1) + 0.1 * mk(2, ba)
                     fm.solve_nd(A2, mk(1, bb), n=1)
+                    # broadcast (size-one) batch axes on either side, as a local Newton uses them
+                    fm.solve_nd(A2[..., :1, :1], mk(1, bb), n=1)
+                    fm.solve_nd(A2, mk(1, (1, 1)), n=1)
+                    fm.solve_2d(A4[..., :1, :1], mk(2, bb))
+                    fm.solve_2d(A4, mk(2, (1, 1)))
+                if len(ba) == 1 and ba == bb:
+                    A2 = np.eye(d).reshape(d, d, 1) + 0.1 * mk(2, ba)
+                    fm.solve_nd(A2, mk(1, bb), n=1)
+                    A6 = np.einsum("il,jm,kn->ijklmn", np.eye(d), np.eye(d), np.eye(d)).reshape((d,) * 6 + (1,)) + 0.05 * mk(6, ba)
+                    fm.solve_nd(A6, mk(3, bb), n=3)
     finally:
         sys.setswitchinterval(old)
 
